@@ -145,6 +145,7 @@ class Paste:
         for k, v in re.findall(r"(\w+)=(`[^`]*`|\S+)", hdr):
             setattr(self, k, v.strip("`"))
         self.contract = []
+        self.ghosts = []       # [anchor-or-None(end of body), [lines]]
         self.invariants = []   # (at, [lines])
         self.wraps = []        # (regex, repl)
         self.drop_attrs = True
@@ -183,9 +184,22 @@ def parse_template(path):
                 cur.invariants.append((at, [], hd.group(1) if hd else None))
                 mode = "inv"
                 continue
+            if s.startswith("//@GHOST"):
+                # ghost (proof-only) lines spliced into the body: before an anchored line, or at the end of the body
+                mm = re.search(r"before=`([^`]*)`", s)
+                cur.ghosts.append([mm.group(1) if mm else None, []])
+                mode = "ghost"
+                continue
+            if s.startswith("//@WRAPTEXT"):
+                # literal source text (whitespace-insensitive) => replacement
+                mm = re.match(r"//@WRAPTEXT\s+`(.*)`\s*=>\s*`(.*)`\s*$", s)
+                lit = mm.group(1)
+                rx = " ".join(re.escape(tok) for tok in lit.split())
+                cur.wraps.append((rx, mm.group(2).replace("\\", "\\\\"), lit))
+                continue
             if s.startswith("//@WRAP"):
                 mm = re.match(r"//@WRAP\s+`(.*)`\s*=>\s*`(.*)`\s*$", s)
-                cur.wraps.append((mm.group(1), mm.group(2)))
+                cur.wraps.append((mm.group(1), mm.group(2), mm.group(1)))
                 continue
             if s.startswith("//@END"):
                 segs.append(cur)
@@ -195,6 +209,8 @@ def parse_template(path):
                 cur.contract.append(l)
             elif mode == "inv":
                 cur.invariants[-1][1].append(l)
+            elif mode == "ghost":
+                cur.ghosts[-1][1].append(l)
             continue
         buf.append(l)
     segs.append("\n".join(buf))
@@ -287,13 +303,29 @@ def render(scratch, template_path, vacuity=False):
             blines[i] = head + "\n" + "\n".join(inv) + "\n" + re.match(r"\s*", blines[i]).group(0) + "{\n"
             body2 = "".join(blines)
             rep["transformations"].append("loop invariant spliced at `%s` (%d lines)" % (at, len(inv)))
-        for rx, repl in p.wraps:
+        for ganchor, glines in p.ghosts:
+            gtext = "\n".join(glines) + "\n"
+            if not re.match(r"\s*proof\s*\{", gtext):
+                raise Undecided("%s: ghost splice must be a `proof { .. }` block" % what)
+            if ganchor is None:
+                k = body2.rstrip().rfind("}")
+                body2 = body2[:k] + gtext + body2[k:]
+                rep["transformations"].append("ghost proof block (%d lines) spliced at the end of the body" % len(glines))
+            else:
+                blines = body2.splitlines(keepends=True)
+                hits = [i for i, l in enumerate(blines) if _norm(l).startswith(_norm(ganchor))]
+                if len(hits) != 1:
+                    raise Undecided("LOST-ANCHOR %s: ghost anchor %r matches %d lines" % (what, ganchor, len(hits)))
+                blines.insert(hits[0], gtext)
+                body2 = "".join(blines)
+                rep["transformations"].append("ghost proof block (%d lines) spliced before `%s`" % (len(glines), ganchor))
+        for rx, repl, shown in p.wraps:
             # match on statement text with flexible whitespace: turn spaces of the regex into \s*
-            pat = re.compile(rx.replace(" ", r"\s*"), re.S)
+            pat = re.compile(rx.replace("\\ ", " ").replace(" ", r"\s*"), re.S)
             body3, n = pat.subn(repl, body2)
             if n == 0:
-                raise Undecided("%s: declared wrapper `%s` no longer matches the source (unsupported construct left in place)" % (what, rx))
-            rep["transformations"].append("wrapper applied x%d: `%s` => `%s`" % (n, rx, repl))
+                raise Undecided("%s: declared wrapper `%s` no longer matches the source (unsupported construct left in place)" % (what, shown))
+            rep["transformations"].append("wrapper applied x%d: `%s` => `%s`" % (n, shown, repl))
             body2 = body3
         piece = sig2 + "\n" + "\n".join(contract) + ("\n" if contract else "") + body2
         out.append("// ---- verbatim from %s:%d-%d (sha256 %s) ----" % (p.file, a + 1, e + 1, rep["sha256_verbatim"][:16]))
